@@ -27,7 +27,7 @@ MC_PROPS = {
 }
 TR_PROPS = {k: [("T_PublishedStable" if p.endswith("PublishedStable") else p) for p in v] for k, v in MC_PROPS.items()}
 MON_INV = {
-    "C01": ["M_C01_Identity", "M_C04_NoHalfBuilt", "M_C04_PublishedClean", "M_C06_SliceOnce"],
+    "C01": ["M_C01_Identity", "M_C01_LookupsDuringStart", "M_C04_NoHalfBuilt", "M_C04_PublishedClean", "M_C06_SliceOnce"],
     "C02": ["M_C02_NoReentry", "M_C02_NoSelfWire", "M_C02_Populated", "M_C02_FailIffSelfOnly"],
     "C03": ["M_C03_NoStale", "M_C04_PublishedClean", "M_C02_NoReentry"],
     "C04": ["M_C04_EarlyOnce", "M_C04_OneEarlyRef", "M_C04_PublishedClean", "M_C04_CleanFailure", "M_C04_NoHalfBuilt", "M_C06_SliceOnce"],
